@@ -103,11 +103,43 @@ def build_run_contract(ex, prop):
     only_new_child.__doc__ = ("C11.L3: the list of children only grows by the child just created; no existing child or context (c0 arbitrary) is "
                               "terminated or killed by a client's request or failure - except the context a delete request names")
 
+    def worker_routed(c):
+        """C18.L2 routing of worker requests by the context id of the header - whatever that id is (0, '', False are ids like any other)"""
+        ex_ = c.ex
+        cli = ex_.ghost.get('cur_cli')
+        if cli is None:
+            return z3.BoolVal(True)
+        start = ex_.ghost['__iter_start__']
+        a0 = start['heap'][c.env['self'].addr].attrs
+        a1 = ex_.heap[c.env['self'].addr].attrs
+        s0 = start['heap'][a0['children'].addr].seq
+        s1 = ex_.heap[a1['children'].addr].seq
+        old = contexts_of(ex_, c.env, start)
+        inq = F(ex_, 'Conn', cli, 'inq')
+        ipos = F(ex_, 'Conn', cli, 'ipos')
+        hdr = inq[0]
+        cid = ValList.vl_hd(Val.vitems(hdr))
+        is_worker = Val.vb(ValList.vl_hd(ValList.vl_tl(Val.vitems(hdr))))
+        req = z3.And(ipos >= 1, hdr != Val.v_none, is_worker, cid != Val.v_none)
+        was = z3.And(z3.Select(old.dom, cid), z3.Select(old.map, cid) != Val.v_none)     # an entry holding None counts as absent (create never stores None: context_transition)
+        target = Val.vakey(z3.Select(old.map, cid))
+        c0 = Val.vakey(c.env['c0'].t)
+        if ('RCtx', 'calls') not in start['absfields'] or ('RCtx', 'calls') not in ex_.absfields:
+            return z3.BoolVal(False)
+        calls0 = z3.Select(start['absfields'][('RCtx', 'calls')], c0)
+        calls1 = z3.Select(ex_.absfields[('RCtx', 'calls')], c0)
+        return z3.And(calls1 == calls0 + z3.If(z3.And(req, was, c0 == target), 1, 0),
+                      z3.Implies(z3.And(req, was), z3.And(ex_.ghost['cli_handed'], s1 == s0)),
+                      z3.Implies(z3.And(req, z3.Not(was)), z3.And(z3.Not(F(ex_, 'Conn', cli, 'open')), s1 == s0)))
+    worker_routed.__doc__ = ('C18.L2: a worker request whose header names a context id (anything but None - 0, \'\' and False are ids like any other) is handed to '
+                             'the context registered under exactly that id, once, and to no other context (c0 arbitrary), and creates no plain worker; '
+                             'if no context is registered under it the client is closed; no other request calls any context')
+
     main = Loop(header='while True', invariant=['lsock.open', server.was_child_inv],
                 modifies=['self.children', 'self.contexts', 'ghost:was_child', 'ghost:none_header_received', 'abs:Conn.inq', 'abs:Conn.ipos', 'abs:Conn.out', 'abs:Conn.open', 'abs:Conn.peer_closed',
                           'abs:RCtx.calls', 'abs:RCtx.waited', 'abs:RCtx.alive', 'abs:RCtx.terminated', 'abs:RCtx.killed', 'abs:RCtx.term_raised'],
                 locals={})
-    main.step = [client_settled, context_transition, only_new_child]
+    main.step = [client_settled, context_transition, only_new_child, worker_routed]
 
     # ---- the finally loop over children and contexts (C12.L1)
     def handled_at(k):
@@ -342,6 +374,9 @@ MUTANTS = [
 
 def replay(ob, repo):
     from pyvc.native import run_script
+    if 'C18.L2' in ob.get('text', ''):       # routing of worker requests by context id: the scenario of the context helper
+        r = run_script('c18_native.py', {'lemma': 'C18.L2'}, repo, timeout=150)
+        return bool(r.get('violates')), r
     r = run_script('c11_native.py', {'name': 'all'}, repo, timeout=250)
     return bool(r.get('violates')), r
 
